@@ -13,10 +13,11 @@ FLAGS_tsan := -fsanitize=thread
 FLAVOURS := plain asan tsan
 
 # harness -> extra tlx sources it links (compiled with the shim, per flavour)
-CONC := c10_pool c11_sync c12_cptr c06_pmsort c07_pmerge c04_ps5
+CONC := c10_pool c11_sync c12_cptr c06_pmsort c07_pmerge c04_ps5 t00_selftest
 SEQ := c02_btree c16_ring c17_lru_splay
 TLX_c10_pool := thread_pool
 TLX_c11_sync :=
+TLX_t00_selftest :=
 TLX_c12_cptr :=
 TLX_c06_pmsort := algorithm_parallel_multiway_merge die_core
 TLX_c07_pmerge := algorithm_parallel_multiway_merge die_core
